@@ -9,7 +9,7 @@ from hypothesis import strategies as st
 from vlib import bd_checks
 from vlib.cauchy import orders_upto
 from vlib.gen_matrix import energies, problems, states_of
-from vlib.instrument import FaultArray, Tick, logged_hamiltonian, wrap_solver
+from vlib.instrument import FaultArray, Tick, implicit_kwargs, logged_hamiltonian, wrap_solver
 from vlib.runner import Outcome
 
 ID = "C11"
@@ -78,7 +78,7 @@ def strategy(tier):
         sched = []
         for _ in range(draw(st.integers(2, 5))):
             sched.append([draw(st.sampled_from(["H_tilde", "U", "U_inv"])), draw(st.integers(0, nb - 1)), draw(st.integers(0, nb - 1))] + list(draw(st.sampled_from(orders))))
-        return {"problem": p, "with_solver": with_solver, "target": target, "schedule": sched, "form": draw(st.sampled_from(["blocked", "scalar"])),
+        return {"problem": p, "with_solver": with_solver, "target": target, "schedule": sched, "form": draw(st.sampled_from(["blocked", "scalar", "blocked", "scalar", "scalar_implicit"])),
                 "target_slice": draw(st.sampled_from([None, None, "blocks", "orders"])),
                 "double": draw(st.integers(0, 10**6)), "double_n": 0 if tier == "quick" else 2}
 
@@ -92,6 +92,12 @@ def _norm(v):
         return "zero"
     if v is one:
         return "one"
+    from scipy.sparse.linalg import LinearOperator
+
+    if isinstance(v, LinearOperator):
+        return np.asarray(v @ np.eye(v.shape[1])).astype(complex)
+    if hasattr(v, "toarray"):
+        v = v.toarray()
     return np.asarray(v).astype(complex)
 
 
@@ -122,7 +128,12 @@ def _build(p, form, ticker, with_solver):
     from pymablock.block_diagonalization import solve_sylvester_diagonal
 
     FaultArray.ticker = ticker
-    H, kwargs = logged_hamiltonian(p, form=form, ticker=ticker, array_cls=FaultArray)
+    H, kwargs = logged_hamiltonian(p, form="scalar" if form == "scalar_implicit" else form, ticker=ticker, array_cls=FaultArray)
+    if form == "scalar_implicit":
+        # implicit mode: eigenvectors of all blocks but the last, default direct solver; elements of the last block are
+        # LinearOperators built from a wrapped twin of every series
+        kwargs = implicit_kwargs(p, kwargs)
+        with_solver = False
     if with_solver:
         E = np.array(energies(p))
         eigs = tuple(E[s] for s in states_of(p))
@@ -145,7 +156,7 @@ def _get(outs, req, how=None):
 def check_case(case, enforce_all=False):
     out = Outcome()
     p = case["problem"]
-    with_solver = case["with_solver"]
+    with_solver = case["with_solver"] and case["form"] != "scalar_implicit"
     kinds = ("eval", "solve", "matmul") if with_solver else ("eval", "matmul")
     out.labels = bd_checks.labels_for(p) + ["kinds=" + "+".join(kinds), "mode=hermitian" if p["hermitian"] else "mode=nonhermitian", f"form={case['form']}"]
     target, sched = case["target"], case["schedule"]
